@@ -85,6 +85,19 @@ Proof. exact c19_admit. Qed.
 Lemma c19_admit_iff : forall s auth fr, admission s auth fr = Admit <-> admissible s auth fr.
 Proof. intros s auth fr. split; [apply c19_admit | apply c19_admit_complete]. Qed.
 
+(** admission does not depend on the CONNECT properties (session expiry, receive maximum,
+    maximum packet size, topic alias maximum): whatever they are, the decision is the same *)
+Lemma c19_props_irrelevant : forall s auth p props,
+  admission s auth (FirstPacket (set_fp_props p props)) = admission s auth (FirstPacket p).
+Proof. intros s auth p props. reflexivity. Qed.
+
+(** in particular an empty client id with clean start = 0 is refused whatever the session
+    expiry says *)
+Example c19_empty_persistent_any_expiry : forall s auth p props,
+  admission s auth (FirstPacket p) = Reject_connack ClientIdentifierNotValid ->
+  admission s auth (FirstPacket (set_fp_props p props)) = Reject_connack ClientIdentifierNotValid.
+Proof. intros s auth p props H. now rewrite c19_props_irrelevant. Qed.
+
 (** an error CONNACK is written only for the empty client id of a persistent session, and
     only after credentials and keep-alive passed *)
 Lemma c19_reject_connack : forall s auth fr code, admission s auth fr = Reject_connack code ->
@@ -122,11 +135,11 @@ Qed.
 Example c19_admit_example :
   let s := {| st_auth := Some [([117], [112])]; st_external := false |} in
   let p := {| fp_kind := KConnect; fp_level_ok := true; fp_keep_alive := 5; fp_client_id := [99];
-              fp_clean := true; fp_login := Some {| lg_user := [117]; lg_pass := [112] |} |} in
+              fp_clean := true; fp_login := Some {| lg_user := [117]; lg_pass := [112] |}; fp_props := None |} in
   admission s (fun _ _ _ => false) (FirstPacket p) = Admit /\
   admission s (fun _ _ _ => false)
     (FirstPacket {| fp_kind := KConnect; fp_level_ok := true; fp_keep_alive := 5; fp_client_id := [99];
-                    fp_clean := true; fp_login := Some {| lg_user := [117]; lg_pass := [113] |} |})
+                    fp_clean := true; fp_login := Some {| lg_user := [117]; lg_pass := [113] |}; fp_props := None |})
   = Reject_no_connack.
 Proof. split; reflexivity. Qed.
 
@@ -135,7 +148,7 @@ Proof. split; reflexivity. Qed.
 Example c19_auth_before_clientid :
   admission {| st_auth := Some [([117], [112])]; st_external := false |} (fun _ _ _ => true)
     (FirstPacket {| fp_kind := KConnect; fp_level_ok := true; fp_keep_alive := 5; fp_client_id := [];
-                    fp_clean := false; fp_login := None |}) = Reject_no_connack.
+                    fp_clean := false; fp_login := None; fp_props := None |}) = Reject_no_connack.
 Proof. reflexivity. Qed.
 
 (* ------------------------------------------------------------------ C16: epilogue *)
